@@ -11,6 +11,9 @@ C01 - converged power flow satisfies the AC network equations of the input data.
    dishonest / NK and klu / umfpack / spsolve: every variant converges from a flat start to the same bus voltages.
 4. M2: stock cases x Newton variant x sparse library: converged => recomputed residual below tol, voltage-controlled buses
    at set-point, slack at reference.  All records validated by TLC (Trace_PF).
+5. Whole-network balance from the physical data (vh/ybus.py: the ACNetwork formulation summed over all devices of a bus, own
+   per-unit conversion from Sn / Vn, nothing of the library's services, equation strings or adders) on every converged
+   generated network and stock case; PV -> PQ conversion at reactive limits (sorted limiter inside the Newton loop).
 """
 import json
 import os
@@ -58,6 +61,9 @@ def run(tier):
             variants.append((rnd.choice(["int", "str"]), rnd.choice([1, 2, 3]), rnd.randint(1, 10 ** 6),
                              rnd.choice(["NR", "NR", "dishonest", "NK"]), rnd.choice(["klu", "umfpack", "spsolve"])))
         tasks.append(dict(kind="variants", sid="net[seed=%d]" % (1000 + k), seed=1000 + k, variants=variants))
+    for k in range(12 if quick else 150):
+        tasks.append(dict(kind="qlim", sid="qlim[seed=%d|nsel=%d|allpv=%d]" % (k, k % 3, k % 2), seed=k, nsel=k % 3, all_pv=k % 2,
+                          method=("NR", "dishonest")[(k // 6) % 2]))
     stock = [c for c in STOCK_PF if os.path.exists(os.path.join("/repo/andes/cases", c))]
     stock = stock[:6] if quick else stock
     for c in stock:
@@ -79,14 +85,23 @@ def run(tier):
             continue
         r_ = x["result"]
         if t["kind"] == "variants":
-            ev = [dict(e="variant", converged=v["converged"], same=v["same"], resid_ok=v["resid_ok"]) for v in r_["records"]]
+            ev = [dict(e="variant", converged=v["converged"], same=v["same"], resid_ok=v["resid_ok"], indep_ok=v.get("indep_ok", True))
+                  for v in r_["records"]]
             traces.append(dict(meta=dict(tid=len(traces) + 1, sid=t["sid"]), ev=ev, detail=r_["records"]))
+        elif t["kind"] == "qlim":
+            ev = [dict(e="qlim", converged=r_["converged"], sticky=r_["sticky"], at_limit=r_.get("at_limit", True),
+                       at_setpoint=r_.get("at_setpoint", True), onehot=r_.get("onehot", True), indep_ok=r_.get("indep_ok", True),
+                       inside=r_.get("inside", True))]
+            traces.append(dict(meta=dict(tid=len(traces) + 1, sid=t["sid"]), ev=ev, detail=r_))
+            rep.extra.setdefault("generators_converted_to_pq", []).append(r_.get("n_converted", 0))
         else:
             if r_.get("raised"):
-                ev = [dict(e="stock", raised=True, converged=False, resid_ok=True, setpoints_ok=True, nan=False)]
+                ev = [dict(e="stock", raised=True, converged=False, resid_ok=True, setpoints_ok=True, nan=False, indep_ok=True)]
             else:
                 ev = [dict(e="stock", raised=False, converged=r_["converged"], resid_ok=r_.get("resid_ok", True),
-                           setpoints_ok=r_.get("setpoints_ok", True), nan=r_.get("nan", False))]
+                           setpoints_ok=r_.get("setpoints_ok", True), nan=r_.get("nan", False), indep_ok=r_.get("indep_ok", True))]
+                if r_.get("indep") and r_["indep"][-1] == "undecided":
+                    rep.note("%s: independent balance undecided (%s)" % (t["sid"], r_["indep"][1]))
             traces.append(dict(meta=dict(tid=len(traces) + 1, sid=t["sid"]), ev=ev, detail=r_))
             stock_sol.setdefault(t["case"], []).append((t["sid"], r_.get("converged")))
     for case, lst in stock_sol.items():
@@ -104,6 +119,8 @@ def run(tier):
             continue
         rep.traces += 1
         rep.nontriv(t["meta"]["sid"])
+        for cl in v.get("drift", []):
+            rep.note("model drift %s in %s" % (cl, t["meta"]["sid"]))
         for cl in v["viol"]:
             sid = t["meta"]["sid"]
             key = "%s:%s" % (cl, "lattice" if sid.startswith("lattice") else sid)
@@ -125,6 +142,8 @@ def run(tier):
 
 def task(t):
     from .. import pfdrv
+    if t["kind"] == "qlim":
+        return pfdrv.pf_qlimits(t)
     return pfdrv.pf_variants(t) if t["kind"] == "variants" else pfdrv.pf_stock(t)
 
 
